@@ -1,9 +1,10 @@
 package main
 
 import (
-	"bytes"
 	"encoding/json"
 	"fmt"
+	"github.com/ChrisTrenkamp/xsel/node"
+	"github.com/ChrisTrenkamp/xsel/parser"
 	"io"
 	"strconv"
 	"strings"
@@ -216,7 +217,36 @@ func recordTokens(text string) (toks []string, final string) {
 
 var jsonReads int
 
+// jsonEventBalance pulls the events of parser.ReadJson as a caller's own store would: no end event may close nothing
+func jsonEventBalance(text string) string {
+	defer func() { recover() }()
+	p := parser.ReadJson(strings.NewReader(text))
+	depth := 0
+	for k := 0; k < 1000000; k++ {
+		n, end, err := p.Pull()
+		if err != nil {
+			return ""
+		}
+		if end {
+			depth--
+			if depth < 0 {
+				return fmt.Sprintf("event %d of parser.ReadJson(%q) is an end event while no element is open", k, text)
+			}
+			continue
+		}
+		if _, ok := n.(node.Element); ok {
+			if _, isAttr := n.(node.Attribute); !isAttr {
+				depth++
+			}
+		}
+	}
+	return ""
+}
+
 func readJsonImpl(text string) (out string) {
+	if m := jsonEventBalance(text); m != "" {
+		return "UNBALANCED " + m
+	}
 	defer func() {
 		if r := recover(); r != nil {
 			out = fmt.Sprintf("PANIC %v", r)
@@ -228,7 +258,7 @@ func readJsonImpl(text string) (out string) {
 			return fmt.Sprintf("ACCEPTED an input whose reader failed (cursor nil: %v)", c == nil)
 		}
 	}
-	c, err := xsel.ReadJson(bytes.NewReader([]byte(text)))
+	c, err := xsel.ReadJson(readerFor([]byte(text), jsonReads))
 	if err != nil {
 		return "E"
 	}
